@@ -25,7 +25,7 @@ PROPS = {
         explanation='minimal big-endian uint proved against Spec.minimalBE; UTF-8 via core ByteArray.IsValidUTF8; accessors via OptMap lemmas',
     ),
     'C05': dict(
-        lean='CoapLite.Props.C05', domains=['TBL', 'ACC'], line_filter=r'(TBL |ACC req )',
+        lean='CoapLite.Props.C05', domains=['TBL', 'ACC', 'PKT'], line_filter=r'(TBL |ACC req |PKT api )',
         rule='exhaustive: every table is queried over its whole finite domain (65536 option numbers, 65536 content-format ids, 256 code bytes, 256 first header bytes x 4 types, text forms); a case is non-trivial when the number is assigned in the registry or exercises a header byte; distinct = distinct protocol lines',
         explanation='theorems over the regenerated tables vs. the hand-transcribed registry; the translator is validated by comparing every table answer with the binary',
         trusted=['spec/registry.json transcribed by hand from the IANA CoRE Parameters registries and the RFCs'],
